@@ -17,7 +17,7 @@ ACC_MIP = flatcheck.acc_of(flatcheck.base_config('g0'), 0)
 # (name, mode bits, var-bit, con-bit, obj-bit, idealistic?)
 MODES = [('default', None, 1, 1, 1, False), ('real-1+2', 3, 1, 1, 0, False), ('real-1+2+16', 19, 1, 1, 1, False),
          ('real-1', 1, 1, 0, 0, False), ('real-2', 2, 0, 1, 0, False), ('real-16', 16, 0, 0, 1, False),
-         ('ideal-32+64', 96, 1, 1, 0, True), ('ideal-64', 64, 0, 1, 0, True), ('ideal-512', 512, 0, 0, 1, True),
+         ('ideal-32', 32, 1, 0, 0, True), ('mixed-2+32', 34, 1, 1, 0, False), ('ideal-32+64', 96, 1, 1, 0, True), ('ideal-64', 64, 0, 1, 0, True), ('ideal-512', 512, 0, 0, 1, True),
          ('ideal-32+64+512', 608, 1, 1, 1, True), ('all-1023', 1023, 1, 1, 1, False), ('none-0', 0, 0, 0, 0, False)]
 
 
@@ -125,7 +125,11 @@ def work(job):
                         st['checks'] += 1
                         exp_viol = (vb and not bounds_ok) or (cb and not cons_ok) or (ob and objmode == 'off' and m.objs)
                         exp_viol = bool(exp_viol)
-                        exact = bool(vb and cb)                # modes for which the full iff is demanded (realistic and idealistic)
+                        # modes for which the full iff is demanded: variables and constraints checked in the SAME pass (realistic bits 1+2
+                        # or idealistic bits 32+64); a root logical constraint is a fixed result variable, so with true values its
+                        # violation surfaces as a variable-bound violation of the realistic pass or as a recomputation mismatch of the
+                        # idealistic pass - a mixed mode such as 2+32 sees neither and is judged one-directionally
+                        exact = bits is None or (bits & 3) == 3 or (bits & 96) == 96
                         if kind != 'grid' and not vb: continue   # out-of-domain points: only modes checking variables
                         if not exact and not (bounds_ok and cons_ok) and not (ob and objmode == 'off') \
                                 and not (vb and not bounds_ok):
